@@ -64,7 +64,7 @@ def run(ctx):
 
 def part1(ctx):
     count = int(ctx.opts.get("pos", ctx.pick(16000, 400000)))
-    r = inproc.run_sharded("vh-lsp", "pos", ctx.seed, count, "c20-pos-" + _tag(ctx), timeout=ctx.pick(300, 1500))
+    r = inproc.run_sharded("vh-lsp", "pos", ctx.seed, count, "c20-pos-" + _tag(ctx), timeout=ctx.pick(900, 3600))
     for o in r.ok:
         ctx.observe(o.get("h"))
     for k, v in r.stats.items():
